@@ -1594,10 +1594,12 @@ func (r *Raft) appendEntries(rpc RPC, a *AppendEntriesRequest) {
 		metrics.MeasureSince([]string{"raft", "rpc", "appendEntries", "storeLogs"}, start)
 	}
 
-	// Update the commit index
-	if a.LeaderCommitIndex > 0 && a.LeaderCommitIndex > r.getCommitIndex() {
+	// Update the commit index. Only the entries up to the last one that this
+	// request checked against the leader's log are known to match it: whatever
+	// we hold beyond that may be a stale suffix and must not be committed.
+	lastChecked := a.PrevLogEntry + uint64(len(a.Entries))
+	if idx := min(a.LeaderCommitIndex, min(r.getLastIndex(), lastChecked)); idx > r.getCommitIndex() {
 		start := time.Now()
-		idx := min(a.LeaderCommitIndex, r.getLastIndex())
 		r.setCommitIndex(idx)
 		if r.configurations.latestIndex <= idx {
 			r.setCommittedConfiguration(r.configurations.latest, r.configurations.latestIndex)
